@@ -15,7 +15,9 @@ import os
 import random
 import threading
 
-from .. import harness, membackend, repodrv, sched, tlc
+import contextlib
+
+from .. import linefuzz, harness, membackend, repodrv, sched, tlc
 
 LEVEL = 'model_checking'
 BLOCK = 64
@@ -135,7 +137,7 @@ def make_world(rng, graph_enc, flavour, conc, nfiles, d, big=False):
     return w, store, files
 
 
-def snapshot_run(run, rng, seed, flavour, conc, fail, quick, big=False):
+def snapshot_run(run, rng, seed, flavour, conc, fail, quick, big=False, fuzz=False):
     with harness.scratch() as d:
         w, store, files = make_world(rng, bool(seed % 2), flavour, conc, rng.randrange(1, 5), d, big=big)
         # sequential reference: concurrency 1, no perturbation
@@ -153,7 +155,8 @@ def snapshot_run(run, rng, seed, flavour, conc, fail, quick, big=False):
         be = instrument(w.backend(gate=LoggingGate(ctl, random.Random(seed), fail_at=fail)), ctl)
         install(ctl)
         try:
-            o, hung = run_watchdog(lambda: w.command('a', observed(lambda r: r.snapshot(paths=[d / 'src']), slots, conc), backend=be, concurrent=conc), 12)
+            with (linefuzz.fuzz(seed, linefuzz.SNAPSHOT) if fuzz else contextlib.nullcontext()):
+                o, hung = run_watchdog(lambda: w.command('a', observed(lambda r: r.snapshot(paths=[d / 'src']), slots, conc), backend=be, concurrent=conc), 12)
         finally:
             uninstall()
         ok = bool(o and o.ok)
@@ -172,7 +175,7 @@ def snapshot_run(run, rng, seed, flavour, conc, fail, quick, big=False):
         evs = events_for_trace(ctl, 'snapshot')
         evs.append({'a': 'end', 'ok': ok, 'fault': fail is not None, 'same': bool(same), 'free': free if not hung else -1, 'hung': bool(hung),
                     'etype': o.etype if o else 'hung'})
-        run.case(('snapshot', seed, flavour, conc, fail, big), nontrivial=len(evs) > 8)
+        run.case(('snapshot', seed, flavour, conc, fail, big, fuzz), nontrivial=len(evs) > 8)
         return {'kind': 'snapshot', 'n': conc, 'nfiles': 1, 'expected': [0], 'events': evs, 'seed': seed, 'flavour': flavour, 'fail': fail}
 
 
@@ -194,7 +197,7 @@ def check_restored(tgt, files, d):
     return got == want
 
 
-def restore_run(run, rng, seed, flavour, conc, fail, quick):
+def restore_run(run, rng, seed, flavour, conc, fail, quick, fuzz=False):
     with harness.scratch() as d:
         w, store, files, file_ids, expected, snap = restore_prepare(rng, bool(seed % 2), flavour, conc, rng.randrange(1, 5), d)
         ctl = sched.Controller(perturb_seed=seed)
@@ -204,7 +207,8 @@ def restore_run(run, rng, seed, flavour, conc, fail, quick):
         tgt.mkdir()
         install(ctl)
         try:
-            o, hung = run_watchdog(lambda: w.command('a', observed(lambda r: r.restore(path=tgt), slots, conc), backend=be, concurrent=conc))
+            with (linefuzz.fuzz(seed, linefuzz.RESTORE) if fuzz else contextlib.nullcontext()):
+                o, hung = run_watchdog(lambda: w.command('a', observed(lambda r: r.restore(path=tgt), slots, conc), backend=be, concurrent=conc))
         finally:
             uninstall()
         ok = bool(o and o.ok)
@@ -212,7 +216,7 @@ def restore_run(run, rng, seed, flavour, conc, fail, quick):
         free = slots.get('free', o.repo._slots.qsize() if (o is not None and getattr(o, 'repo', None) is not None) else -1) if not hung else -1
         evs.append({'a': 'end', 'ok': ok, 'fault': fail is not None, 'same': bool(ok and check_restored(tgt, files, d)), 'free': free, 'hung': bool(hung),
                     'etype': o.etype if o else 'hung'})
-        run.case(('restore', seed, flavour, conc, fail), nontrivial=len(evs) > 8)
+        run.case(('restore', seed, flavour, conc, fail, fuzz), nontrivial=len(evs) > 8)
         return {'kind': 'restore', 'n': conc, 'nfiles': len(expected), 'expected': expected, 'events': evs, 'seed': seed, 'flavour': flavour, 'fail': fail}
 
 
@@ -353,6 +357,12 @@ def main(run):
     for i in range(4 if quick else 40):
         conc = [1, 2][i % 2]
         traces.append(snapshot_run(run, rng, run.seed * 1000 + 800 + i, 'plain' if i % 4 < 2 else 'async', conc, 2 + rng.randrange(0, 3 * conc), quick, big=True))
+    # line-level schedule fuzzing (rv/linefuzz.py): the threads of the command are preempted at random lines of the pipeline functions, which
+    # reaches races whose window lies between two hooks
+    for i in range(30 if quick else 400):
+        traces.append(restore_run(run, rng, run.seed * 1000 + 600 + i, 'plain' if i % 2 else 'async', [2, 3][i % 2], None, quick, fuzz=True))
+    for i in range(8 if quick else 100):
+        traces.append(snapshot_run(run, rng, run.seed * 1000 + 700 + i, 'plain' if i % 2 else 'async', [2, 3][i % 2], None, quick, big=bool(i % 4 == 0), fuzz=True))
     # ... and without a failure: the producer is blocked on the full queue in the middle of a file while chunks of that file complete
     for i in range(3 if quick else 30):
         traces.append(snapshot_run(run, rng, run.seed * 1000 + 900 + i, 'plain' if i % 2 else 'async', [1, 2, 3][i % 3], None, quick, big=True))
